@@ -36,8 +36,8 @@ manifest = {
     "version": 1,
     "setup_cmd": "./check --setup",
     "hooks": {
-        "guard": "cargo feature `verif-hooks` (sage-core, sage-cloudpath); default off",
-        "enable": "the harness crate depends on /repo/crates/* by path and enables the feature in its Cargo.toml",
+        "guard": "none - no hooks or instrumentation were added to /repo: every correspondence op goes through public APIs of sage-core / sage-cloudpath / sage-cli (linked by path) or runs the built sage binary",
+        "enable": "n/a (checks build /repo's working tree as it is: `cargo build --offline` of the harness crate with path dependencies, and of the sage binary into harness/target-sage)",
         "baseline_off_cmd": "cd /repo && cargo test --workspace --no-fail-fast --offline",
         "source_commits": hooks.get("source_commits", []),
         "add_only": True,
